@@ -1014,4 +1014,28 @@ theorem staticView_not_isADirectory (fs : Fs) (v : View) (ae : Option (List Enc)
         · simp [hd] at h
   simp [Fs.isRegular, hdir] at hreg
 
+/-! ### the configurations the translator's probes are made with (`extract/c16.py`) -/
+
+/-- filesystem probe: the root given; package probe: `<pkg>:static/` -/
+def probeView (pkg : Bool) (root : Text) : View :=
+  { pkg := pkg, base := "/probe-base".toList, docroot := if pkg then "static/".toList else root,
+    index := "index.html".toList, encs := [] }
+
+/-- below the filesystem probe root nothing exists; in the scratch package only `static/` is a directory -/
+def probeFs (pkg : Bool) : Fs :=
+  { isDir := fun p => pkg && (p = "/probe-base/static/".toList || p = "/probe-base/static".toList)
+    isThere := fun p => pkg && (p = "/probe-base/static/".toList || p = "/probe-base/static".toList)
+    size := fun _ => 0 }
+
+def nameOutcomeTag : NameOutcome → String × Text
+  | .notFound => ("notfound", [])
+  | .redirect => ("redirect", [])
+  | .name n => ("name", n)
+
+/-- the model's answer to a raw PATH_INFO given to `get_resource_name` without `use_subpath` -/
+def pathInfoTag (root : Text) (raw : List Nat) : String × Text :=
+  match decodePathInfo (raw.map UInt8.ofNat) with
+  | none => ("urldecode", [])
+  | some t => nameOutcomeTag (resourceName (probeFs false) (probeView false root) (endsWithSlash t) (splitPathInfo t))
+
 end Pyr.Static
